@@ -95,16 +95,24 @@ fn cls_of(chars: impl Iterator<Item = char>) -> Val {
     Val::L(cls)
 }
 
-/// lengths of the text events / style codes: equal shapes of two consecutive
-/// encodings mean the clock-dependent parts had the same widths
-fn shape(v: &Val) -> Vec<u128> {
+/// the text events with every ASCII digit replaced by '0' (and the style
+/// codes): equal shapes of two consecutive encodings mean the clock-dependent
+/// parts had the same widths and the same non-digit skeleton (chrono's %+ prints
+/// 0/3/6/9 fractional digits depending on the nanoseconds)
+fn shape(v: &Val) -> Vec<Val> {
     match v {
         Val::L(evs) => evs
             .iter()
             .map(|e| match e {
-                Val::L(cs) => cs.len() as u128,
-                Val::N(n) => 1_000_000 + *n,
-                Val::S(b) => 2_000_000 + b.len() as u128,
+                Val::L(cs) => Val::L(
+                    cs.iter()
+                        .map(|c| match c {
+                            Val::N(n) if (48..=57).contains(n) => Val::N(48),
+                            other => other.clone(),
+                        })
+                        .collect(),
+                ),
+                other => other.clone(),
             })
             .collect(),
         _ => vec![],
